@@ -2,7 +2,7 @@ SPECIFICATION Spec
 CONSTANTS
   Ids = {"A", "B", "C"}
   InitUp = {"A", "B"}
-  Small = {}
+  Small = {"s1"}
   Big = {"b1", "b2"}
   Fanout = 3
   TxLimit = 3
